@@ -190,3 +190,59 @@ func lcPsStaleSend(s *lcSession) {
 	}
 	// (UDP mode: the port it was given may belong to a session of another scenario by now - nothing is sent)
 }
+
+// lcRtmpLateClose: the peer of an RTMP client session (relay pull origin, relay push target) completes the handshake,
+// takes the client's first commands (set chunk size, connect) without answering, and hangs up - the attempt fails after
+// the handshake instead of before it.  Written against the wire.
+func lcRtmpLateClose(c net.Conn) {
+	defer c.Close()
+	_ = c.SetDeadline(time.Now().Add(3 * time.Second))
+	c0c1 := make([]byte, 1537)
+	if _, err := io.ReadFull(c, c0c1); err != nil {
+		return
+	}
+	s := make([]byte, 1+1536+1536)
+	s[0] = 3
+	for i := 9; i < 1537; i++ {
+		s[i] = byte(i * 7)
+	}
+	copy(s[1537:], c0c1[1:]) // S2 echoes C1
+	if _, err := c.Write(s); err != nil {
+		return
+	}
+	if _, err := io.ReadFull(c, make([]byte, 1536)); err != nil { // C2
+		return
+	}
+	// set chunk size (16 bytes) + the connect command: more than 100 bytes
+	got, buf := 0, make([]byte, 4096)
+	_ = c.SetReadDeadline(time.Now().Add(time.Second))
+	for got < 100 {
+		n, err := c.Read(buf)
+		got += n
+		if err != nil {
+			break
+		}
+	}
+}
+
+// lcRtspLateClose: an RTSP origin answers the first request (OPTIONS) and hangs up.
+func lcRtspLateClose(c net.Conn) {
+	defer c.Close()
+	_ = c.SetDeadline(time.Now().Add(3 * time.Second))
+	r := bufio.NewReader(c)
+	cseq := ""
+	for {
+		h, err := r.ReadString('\n')
+		if err != nil {
+			return
+		}
+		h = strings.TrimRight(h, "\r\n")
+		if h == "" {
+			break
+		}
+		if strings.HasPrefix(strings.ToLower(h), "cseq:") {
+			cseq = strings.TrimSpace(h[5:])
+		}
+	}
+	_, _ = c.Write([]byte("RTSP/1.0 200 OK\r\nCSeq: " + cseq + "\r\nPublic: OPTIONS, DESCRIBE, SETUP, PLAY, TEARDOWN\r\n\r\n"))
+}
